@@ -118,6 +118,20 @@ def near(x, thr, rel=1e-9):
     return abs(x - thr) <= rel * max(1.0, abs(thr))
 
 
+def _summary_mean_motion(mm_revday, e, inc_deg):
+    """rev/day recovered the way the orbit summary (OrbitElements) does it: exponent 2/3 on (1 - e^2)."""
+    try:
+        n = mm_revday * 2 * math.pi / 1440.0
+        a1 = (0.743669161e-1 / n) ** (2.0 / 3)
+        k = (3 * math.cos(math.radians(inc_deg)) ** 2 - 1) / (1 - e * e) ** (2.0 / 3)
+        d1 = 1.5 * 5.413080e-4 / a1 ** 2 * k
+        a0 = a1 * (1 - d1 / 3 - d1 ** 2 - 134.0 / 81 * d1 ** 3)
+        d0 = 1.5 * 5.413080e-4 / a0 ** 2 * k
+        return n / (1 + d0) * 1440 / (2 * math.pi)
+    except (ZeroDivisionError, ValueError, OverflowError):
+        return float("nan")
+
+
 def oracle(ctx):
     from pyorbital import orbital, tlefile
     drv = ctx.driver() if ctx.driver_ok else None
@@ -160,9 +174,14 @@ def oracle(ctx):
                 ctx.violation("ecc_not_refused", case, "built" if built else repr(exc), "OrbitalError (eccentricity out of (0, 1-1e-6))", site="Orbital.__init__")
             continue
         if not built and isinstance(exc, orbital.OrbitalError) and "Mean motion" in str(exc):
-            revs = xnodp * 1440 / (2 * math.pi) if xnodp and math.isfinite(xnodp) else float("nan")
-            if math.isfinite(revs) and 0.0036 < revs < 17.9 and not edge:
-                ctx.violation("mm_refused_in_range", case, repr(exc), "accepted: recovered mean motion %.6f rev/day is in range" % revs, site="Orbital.__init__")
+            # "mean motion outside the model's range": the statement does not say which mean motion (the printed Kozai
+            # value, the model's Brouwer value, or the value the orbit summary recovers, which differ wildly for e -> 1):
+            # a refusal is wrong only if EVERY reading is inside (0.0036, 17.9) rev/day and no other element is out of range
+            if i_bad:
+                continue      # an OrbitalError is the required class anyway
+            readings = [mm, xnodp * 1440 / (2 * math.pi) if xnodp and math.isfinite(xnodp) else float("nan"), _summary_mean_motion(mm, e, inc)]
+            if all(math.isfinite(x) and 0.0036 < x < 17.9 for x in readings) and not edge:
+                ctx.violation("mm_refused_in_range", case, repr(exc), "accepted: mean motion readings %r rev/day are all in range" % readings, site="Orbital.__init__")
             continue
         if i_bad:
             if built or not isinstance(exc, orbital.OrbitalError):
